@@ -532,3 +532,94 @@ Example C06_tr_reg_nonvacuous :
   | CLite.Err _ => []
   end = map (fun k => option_map blk (reg_getraw r3 k)) [49; 50; 51; 52; 0]%N.
 Proof. split; [exact TrReg.regs_at_init|split; [intros k _; reflexivity|vm_compute; reflexivity]]. Qed.
+
+(* ======================================================================================== *)
+(* the address resolution on the TRANSLATED C text (tools/c2clite.py -> GenCFuncs.v, semantics CLite.v): ex_lineno and
+   ex_region of ex.c, proved in TrExAddr.v.  Memory: the address string s in block bs; xrow in the block of the global;
+   bufs[0].lb points to the struct lbuf in block bl (mark[] in cells 0..31, ln_n = len in cell 66); `char **num` of
+   ex_lineno and `int *beg, *end` of ex_region point to blocks of their own.  atoi is the builtin BAtoi of CLite.v (checked
+   reads, a value outside int is the error EOverflow); ex_search is not translated, so the statements are for address
+   strings without '/' and '?' (TrExAddr.lineno_body_ok / region_body_ok are the same statements for any `call` that
+   answers ex_search the way a search oracle says).  The model is the position-based one of CapDefs.v (ex_lineno with the
+   mark table of the struct and the search oracle) and TrExAddr.region_full (CapDefs.ex_region with beg and end kept when
+   the address is rejected: ec_insert/ec_put/ec_read look at them); lineno_fit / region_fit are the exact conditions
+   under which atoi(..), atoi(..) - 1, n += atoi(..), lbuf_len(xb) - 1, ex_lineno(..) + 1, xrow + 1 stay inside int. *)
+From NV Require CapDefs CLiteTac TrExAddr.
+
+(* ex_lineno(&p), p at any position i of any address string (any bytes) without a search: number (the digit loop / atoi),
+   `.`, `$`, 'x (lbuf_jump on the mark table in memory), then the +n -n offsets.  The model returns (n, j); the call
+   returns n, leaves p at j -- after an unset mark behind the mark letter, and n = -2 -- and changes nothing else. *)
+Theorem C06_tr_ex_lineno : forall m bs bn bl s i xrow len gbufs lblk search d fuel,
+  CLiteProps.str_at m bs s -> CLiteProps.bytes_lt256 s -> nth_error m bn = Some [CLite.VPtr bs (Z.of_nat i)] ->
+  CLiteProps.cell_at m GenCFuncs.G_xrow xrow ->
+  nth_error m GenCFuncs.G_bufs = Some gbufs -> nth_error gbufs TrExAddr.BUFS_LB = Some (CLite.VPtr bl 0) ->
+  nth_error m bl = Some lblk -> nth_error lblk TrLbufBase.L_ln_n = Some (CLite.VInt len) -> TrLbufMarks.marks_ints lblk ->
+  bs <> bn /\ GenCFuncs.G_xrow <> bn /\ GenCFuncs.G_bufs <> bn /\ bl <> bn -> TrExAddr.int_ok xrow -> TrExAddr.int_ok len ->
+  TrExAddr.nosearch s -> (i <= length s)%nat -> (2 * S (length s) <= fuel)%nat ->
+  exists n j, CapDefs.ex_lineno len (TrExAddr.mark_of lblk) search xrow s i = CapDefs.Ok (n, j) /\ (i <= j)%nat /\ (j <= length s)%nat /\
+    (TrExAddr.lineno_fit len (TrExAddr.mark_of lblk) search xrow s i ->
+     exists j' nb, CLite.callf GenCFuncs.cprog fuel (S (S (S d))) GenCFuncs.F_ex_lineno [CLite.VPtr bn 0] m
+                   = CLite.Ok (CLite.VInt n, (CLiteProps.upd m bn [CLite.VPtr bs (Z.of_nat j')] ++ [[CLite.VInt nb]])%list) /\
+                   (j' = j \/ n = -2) /\ (i <= j')%nat /\ (j' <= length s)%nat /\ TrExAddr.int_ok n).
+Proof. exact TrExAddr.tr_ex_lineno. Qed.
+Print Assumptions C06_tr_ex_lineno.
+
+(* ex_region(loc, &beg, &end) on any NUL-free address string without a search: `%`, the empty address (with the check of
+   xrow against the buffer), a, a,b, a;b (xrow set to the first address), the address-0 rule of 6c95ca8, the range checks.
+   r = (rejected, beg, end, xrow'): the call returns 1 or 0 accordingly, *beg = beg, *end = end, xrow = xrow', every other
+   block of the memory is as before.  ( *end must hold an int at the call: the C text reads it before it writes it.) *)
+Theorem C06_tr_ex_region : forall m bs bb be bl s xrow len gbufs lblk vb0 e0 search d fuel,
+  CLiteProps.str_at m bs s -> nonul s -> CLiteProps.cell_at m GenCFuncs.G_xrow xrow ->
+  nth_error m bb = Some [vb0] -> nth_error m be = Some [CLite.VInt e0] ->
+  nth_error m GenCFuncs.G_bufs = Some gbufs -> nth_error gbufs TrExAddr.BUFS_LB = Some (CLite.VPtr bl 0) ->
+  nth_error m bl = Some lblk -> nth_error lblk TrLbufBase.L_ln_n = Some (CLite.VInt len) -> TrLbufMarks.marks_ints lblk ->
+  nth_error m GenCFuncs.G_lit_25_1 = Some GenCFuncs.gb_lit_25_1 -> TrExAddr.rdist bs bb be bl ->
+  TrExAddr.int_ok xrow -> TrExAddr.int_ok len -> TrExAddr.int_ok e0 -> 2 * Z.of_nat (S (length s)) <= 2147483647 ->
+  TrExAddr.nosearch s -> (2 * S (length s) <= fuel)%nat ->
+  exists r, TrExAddr.region_full len (CapDefs.ex_lineno len (TrExAddr.mark_of lblk) search) s xrow = CapDefs.Ok r /\
+    (TrExAddr.region_fit len (TrExAddr.mark_of lblk) search s xrow ->
+     exists m', CLite.callf GenCFuncs.cprog fuel (S (S (S (S d)))) GenCFuncs.F_ex_region [CLite.VPtr bs 0; CLite.VPtr bb 0; CLite.VPtr be 0] m
+                = CLite.Ok (CLite.VInt (CLite.b2z (fst (fst (fst r)))), m') /\
+       nth_error m' bb = Some [CLite.VInt (snd (fst (fst r)))] /\ nth_error m' be = Some [CLite.VInt (snd (fst r))] /\
+       CLiteProps.cell_at m' GenCFuncs.G_xrow (snd r) /\
+       (forall b', (b' < length m)%nat -> b' <> bb -> b' <> be -> b' <> GenCFuncs.G_xrow -> nth_error m' b' = nth_error m b')).
+Proof. exact TrExAddr.tr_ex_region. Qed.
+Print Assumptions C06_tr_ex_region.
+
+(* non-vacuity: the hypotheses of C06_tr_ex_region hold of a concrete memory (the program's globals, a struct lbuf of 5 lines
+   without marks, the string "2,$-1"), the model answers lines 2..4 (beg = 1, end = 4), and the translated ex_region RUNS
+   on that memory and stores the same; further runs: `2;+1` moves xrow, `0` is accepted as (0,0), `%`, the empty address at
+   line 4, an unset mark is rejected with end = -1, a search stops at the untranslated ex_search, 2147483648 is outside
+   int (atoi: undefined behaviour in C, EOverflow here) *)
+Example C06_tr_addr_nonvacuous :
+  let a := [50; 44; 36; 45; 49]%N in
+  let m := TrExAddr.ex_mem 5 0 (map Z.of_N a) in
+  let bl := length GenCFuncs.cglobals in
+  (CLiteProps.str_at m (S bl) a /\ nonul a /\ CLiteProps.cell_at m GenCFuncs.G_xrow 0 /\
+   nth_error m (S (S bl)) = Some [CLite.VUndef] /\ nth_error m (S (S (S bl))) = Some [CLite.VInt 0] /\
+   nth_error m GenCFuncs.G_bufs = Some (CLiteProps.upd GenCFuncs.gb_bufs TrExAddr.BUFS_LB (CLite.VPtr bl 0)) /\
+   nth_error m bl = Some (TrExAddr.lbuf_blk 5) /\ nth_error (TrExAddr.lbuf_blk 5) TrLbufBase.L_ln_n = Some (CLite.VInt 5) /\
+   TrLbufMarks.marks_ints (TrExAddr.lbuf_blk 5) /\
+   nth_error m GenCFuncs.G_lit_25_1 = Some GenCFuncs.gb_lit_25_1 /\ TrExAddr.rdist (S bl) (S (S bl)) (S (S (S bl))) bl /\
+   TrExAddr.nosearch a /\
+   TrExAddr.region_fit 5 (TrExAddr.mark_of (TrExAddr.lbuf_blk 5)) TrExAddr.search0 a 0) /\
+  TrExAddr.region_full 5 (CapDefs.ex_lineno 5 (TrExAddr.mark_of (TrExAddr.lbuf_blk 5)) TrExAddr.search0) a 0 = CapDefs.Ok (false, 1, 4, 0) /\
+  TrExAddr.run_region 5 0 (map Z.of_N a) = CLite.Ok (0, 1, 4, 0) /\
+  TrExAddr.run_region 5 0 [50; 59; 43; 49] = CLite.Ok (0, 1, 3, 1) /\
+  TrExAddr.run_region 5 0 [48] = CLite.Ok (0, 0, 0, 0) /\
+  TrExAddr.run_region 5 0 [37] = CLite.Ok (0, 0, 5, 0) /\
+  TrExAddr.run_region 5 3 [] = CLite.Ok (0, 3, 4, 3) /\
+  TrExAddr.run_region 5 0 [39; 97] = CLite.Ok (1, -2, -1, 0) /\
+  TrExAddr.run_region 5 0 [47; 97; 47] = CLite.Err CLite.EShape /\
+  TrExAddr.run_region 5 0 [50; 49; 52; 55; 52; 56; 51; 54; 52; 56] = CLite.Err CLite.EOverflow.
+Proof.
+  cbv zeta. split; [|vm_compute; repeat split; reflexivity].
+  split; [vm_compute; reflexivity|]. split; [repeat constructor; cbv; intuition discriminate|].
+  split; [vm_compute; reflexivity|]. split; [vm_compute; reflexivity|]. split; [vm_compute; reflexivity|].
+  split; [vm_compute; reflexivity|]. split; [vm_compute; reflexivity|]. split; [vm_compute; reflexivity|].
+  split. { intros j Hj. do 64 (destruct j as [|j]; [eexists; split; [reflexivity|unfold TrLbufBase.i32; lia]|]). lia. }
+  split; [vm_compute; reflexivity|].
+  split. { unfold TrExAddr.rdist. vm_compute. repeat split; intro H; discriminate H. }
+  split. { repeat constructor; intro H; discriminate H. }
+  vm_compute. intuition discriminate.
+Qed.
